@@ -223,7 +223,7 @@ pub fn decode(target: &str, data: &[u8]) -> Vec<(&'static str, Value)> {
                     inside.push(root);
                     let nl = 1 + r.below(6);
                     let leaves = (0..nl).map(|_| if r.u8() % 10 == 0 { m.ids[r.below(m.ids.len())] } else { inside[r.below(inside.len())] }).collect();
-                    vec![("C14", serde_json::to_value(c14::Case { facts, root, leaves, path: PathSel::Bin(3) }).unwrap())]
+                    vec![("C14", serde_json::to_value(c14::Case { facts, root, leaves, path: PathSel::Bin(3), custom_modifier: if r.u8() % 6 == 0 { vec![r.u16()] } else { vec![] } }).unwrap())]
                 }
                 3 => {
                     let cfg = std_cfg(NameMode::Capped, true);
